@@ -20,9 +20,9 @@
 (* Three layers per line (docs/BUILDING-A-CHECK.md):                        *)
 (*  model    Muc's step for the logged event if the environment assumption  *)
 (*           `Enabled` holds in the model state, else the model stutters;   *)
-(*  monitor  `mon.g`: the reference rooms, obtained by applying RoomStep to *)
-(*           the logged events only (total: no enabling condition), and     *)
-(*           `mon.po`, the previous observation.  The invariants of the     *)
+(*  monitor  `mon.ref.st`: the reference rooms, obtained by applying        *)
+(*           RoomStep to the logged events only (total: no enabling         *)
+(*           condition), and `mon.po`, the previous observation.  The invariants of the     *)
 (*           extension (P_* of Muc) are evaluated on reference + observation;*)
 (*           an execution with a failing predicate is a conformance failure;*)
 (*  compare  model projection vs observation, including the order of the    *)
@@ -32,18 +32,18 @@ EXTENDS Muc, Integers, Json, CSV, IOUtils
 
 TraceLog == ndJsonDeserialize(IOEnv.QXV_TRACE)
 
-VARIABLES l, cid, mon, nfail, fails, fflag, ndiv, divs, dflag, ncases, naborts
+VARIABLES l, cid, mon, fl, nfail, fails, fflag, ndiv, divs, dflag, ncases, naborts
 
-tvars == <<vars, l, cid, mon, nfail, fails, fflag, ndiv, divs, dflag, ncases, naborts>>
+tvars == <<vars, l, cid, mon, fl, nfail, fails, fflag, ndiv, divs, dflag, ncases, naborts>>
 
 ObsRoom(o, r) == LET x == o.rooms[r] IN
     [joined |-> x.joined, nick |-> x.nick, parts |-> Range(x.parts), subj |-> x.subj, name |-> x.name, acts |-> x.acts]
 Obs0 == [joined |-> FALSE, nick |-> "", parts |-> {}, subj |-> "", name |-> "", acts |-> 0]
-Mon0 == [g |-> [r \in Rooms |-> R0], po |-> [r \in Rooms |-> Obs0]]
+Mon0 == [ref |-> Out0, po |-> [r \in Rooms |-> Obs0]]     \* ref.st = the reference rooms
 
 TInit ==
     /\ Init
-    /\ l = 1 /\ cid = "" /\ mon = Mon0 /\ nfail = 0 /\ fails = <<>> /\ fflag = FALSE
+    /\ l = 1 /\ cid = "" /\ mon = Mon0 /\ fl = {} /\ nfail = 0 /\ fails = <<>> /\ fflag = FALSE
     /\ ndiv = 0 /\ divs = <<>> /\ dflag = FALSE /\ ncases = 0 /\ naborts = 0
 
 \* the event of a line: the line without the observation
@@ -56,7 +56,7 @@ ObsProj(o) == [conn |-> o.conn, msig |-> o.msig, sent |-> o.sent,
                rooms |-> [r \in Rooms |-> [st |-> ObsRoom(o, r), sig |-> o.rooms[r].sig]]]
 
 (* the invariants of the extension on reference (g0 -> g1) and observation *)
-FailedRoom(g0, g1, e, r, po, ob, sig) ==
+FailedRoom(g0, g1, e, r, po, ob, sig, refsig) ==
     {p \in {"Joined", "Parts", "Nick", "Subject", "Attrs", "JoinLeft", "PartSigs", "OtherSigs", "Isolated"} :
         CASE p = "Joined"    -> ~P_Joined(Ghost(g1), ob.joined)
           [] p = "Parts"     -> ~P_Parts(Ghost(g1), ob.parts)
@@ -65,36 +65,40 @@ FailedRoom(g0, g1, e, r, po, ob, sig) ==
           [] p = "Attrs"     -> ~(ob.name = g1.name /\ ob.acts = g1.acts)
           [] p = "JoinLeft"  -> ~P_JoinLeft(Ghost(g0), Ghost(g1), e, r, sig)
           [] p = "PartSigs"  -> ~P_PartSigs(Ghost(g0), Ghost(g1), e, r, sig)
-          [] p = "OtherSigs" -> ~P_OtherSigs(RoomStep(g0, e, r).sig, sig)
+          [] p = "OtherSigs" -> ~P_OtherSigs(refsig, sig)
           [] p = "Isolated"  -> ~P_Isolated(e, r, po, ob, sig)}
 
-Failed(m, e, o) ==
-    LET so == StepOut(m.g, e)
-        g1 == StepRooms(m.g, e)
-    IN UNION {{[room |-> r, prop |-> p] : p \in FailedRoom(m.g[r], g1[r], e, r, m.po[r], ObsRoom(o, r), o.rooms[r].sig)} : r \in Rooms}
-       \cup (IF o.sent # so.sent THEN {[room |-> "", prop |-> "Sent"]} ELSE {})
-       \cup (IF o.msig # so.msig THEN {[room |-> "", prop |-> "Invite"]} ELSE {})
+\* m: monitor before the step, n: after it (n.ref = reaction of the reference rooms m.ref.st to e)
+Failed(m, n, e, o) ==
+    UNION {{[room |-> r, prop |-> p] :
+                p \in FailedRoom(m.ref.st[r], n.ref.st[r], e, r, m.po[r], n.po[r], o.rooms[r].sig, n.ref.sig[r])} : r \in Rooms}
+       \cup (IF o.sent # n.ref.sent THEN {[room |-> "", prop |-> "Sent"]} ELSE {})
+       \cup (IF o.msig # n.ref.msig THEN {[room |-> "", prop |-> "Invite"]} ELSE {})
 
-MonNext(m, e, o) == [g |-> StepRooms(m.g, e), po |-> [r \in Rooms |-> ObsRoom(o, r)]]
+MonNext(m, e, o) == [ref |-> StepOut(m.ref.st, e), po |-> [r \in Rooms |-> ObsRoom(o, r)]]
 
 ResetStep(ln) ==
     /\ Reinit
-    /\ cid' = ln.case /\ mon' = Mon0 /\ dflag' = FALSE /\ fflag' = FALSE /\ ncases' = ncases + 1
+    /\ cid' = ln.case /\ mon' = Mon0 /\ fl' = {} /\ dflag' = FALSE /\ fflag' = FALSE /\ ncases' = ncases + 1
     /\ UNCHANGED <<nfail, fails, ndiv, divs, naborts>>
 
 AbortStep(ln) ==
     /\ naborts' = naborts + 1
-    /\ UNCHANGED <<vars, cid, mon, nfail, fails, fflag, ndiv, divs, dflag, ncases>>
+    /\ UNCHANGED <<vars, cid, mon, fl, nfail, fails, fflag, ndiv, divs, dflag, ncases>>
 
+\* The record of the first failing step of an execution goes to the side file QXV_FAILS (one JSON
+\* line each); the state keeps the count and the first few only, so that it stays small.
 OpStep(ln) ==
     LET e == Ev(ln)
         o == ln.o
-        f == Failed(mon, e, o)
     IN /\ IF Enabled(e) THEN Apply(e) ELSE UNCHANGED vars
        /\ mon' = MonNext(mon, e, o)
-       /\ fflag' = (fflag \/ f # {})
-       /\ nfail' = IF f # {} /\ ~fflag THEN nfail + 1 ELSE nfail
-       /\ fails' = IF f # {} /\ ~fflag THEN Append(fails, [case |-> cid, line |-> l, e |-> e.a, props |-> f]) ELSE fails
+       /\ fl' = Failed(mon, mon', e, o)
+       /\ fflag' = (fflag \/ fl' # {})
+       /\ nfail' = IF fl' # {} /\ ~fflag THEN nfail + 1 ELSE nfail
+       /\ fails' = IF fl' # {} /\ ~fflag /\ Len(fails) < 10
+                   THEN Append(fails, [case |-> cid, line |-> l, e |-> e.a, props |-> fl']) ELSE fails
+       /\ (fl' # {} /\ ~fflag) => CSVWrite("%1$s", <<ToJson([case |-> cid, line |-> l, e |-> e.a, props |-> fl'])>>, IOEnv.QXV_FAILS)
        /\ LET d == Proj' # ObsProj(o) IN
             /\ dflag' = (dflag \/ d)
             /\ ndiv' = IF d /\ ~dflag THEN ndiv + 1 ELSE ndiv
